@@ -321,7 +321,7 @@ M.contract(P_PS + ':fragment_sdv_from_fragment', params=dict(fragment=FRAG, refe
            raises_only=())
 
 M.contract(P_PS + ':string_sdv_from_fragments',
-           params=dict(fragments=FRAGMENTS, reference_restrictions=Any_), ghosts=dict(k=Nat),
+           params=dict(fragments=FRAGMENTS, reference_restrictions=Any_), ghosts=dict(k=Nat), inline=True,
            ensures={
                'one-sdv-per-fragment-in-order': lambda fragments, k, result:
                len(result.fragments) == len(fragments)
@@ -469,8 +469,106 @@ M.contract(P_TS + ':TokenStream._consume_remaining_part_of_current_line',
            ensures={
                'source-unchanged': lambda self, old: self._source == old[1],
                'returns-the-rest-of-the-line': lambda old, result: is_current_line_rest(old[1], old[0], result),
+               # (a consequence of the clause above, stated for the callers: at a line break the rest is empty)
+               'empty-at-a-line-break': lambda old, result:
+               old[0] == len(old[1]) or old[1][old[0]] != '\n' or result == '',
                'advances-to-the-line-break-or-past-it': lambda self, do_forward_to_next_line, old, result:
                self._start_pos == (old[0] + len(result) if old[0] + len(result) == len(old[1])
                                    else old[0] + len(result) + (1 if do_forward_to_next_line else 0)),
            },
            raises_only=())
+
+
+# ------------------------------------------------------------------------------ here-documents
+
+from exactly_lib.impls.types.string_ import parse_rich_string  # noqa: E402
+from exactly_lib.section_document.element_parsers.token_stream_parser import TokenParser  # noqa: E402
+
+P_RS = 'exactly_lib.impls.types.string_.parse_rich_string'
+
+TP = Inst(TokenParser, _token_stream=TS, _first_line_number=Int, error_message_format_map=Any_)
+
+LINES = MListOf(Str)
+
+
+def _cat_nl_step(acc, line):
+    return acc + line + '\n'
+
+
+cat_nl = Measure('cat_nl', '', _cat_nl_step, Str)       # every line followed by a line break
+
+
+def join_lemma(lines):
+    """'\\n'.join(lines) + '\\n' is every line followed by a line break (true of every non-empty list; carried as
+    an invariant where the list is built because the two are different folds)"""
+    return len(lines) == 0 or '\n'.join(lines) + '\n' == cat_nl(lines)
+
+
+def marker_line_at(source, start, p, marker):
+    """position p (>= start) is the beginning of a line (start itself counts) whose text is exactly marker"""
+    return (start <= p and (p == start or source[p - 1] == '\n')
+            and is_current_line_rest(source, p, marker))
+
+
+def split_events(trace):
+    return [e for e in trace if e[0] == 'split']
+
+
+# the text that is split into fragments is recorded as a ghost event at every use of split's contract
+M.contracts[[c.qname for c in M.contracts].index(P_SYM + ':split')].event = 'split'
+
+M.contract(P_RS + ':_sdv_from_lines', params=dict(lines=LINES),
+           requires=lambda lines: join_lemma(lines),
+           returns=Any_,
+           ensures={
+               # proved of the body: exactly one string is split into fragments, namely ...
+               'splits-the-lines-each-followed-by-a-line-break': (lambda lines, trace:
+                                                                  len(split_events(trace)) == 1 and
+                                                                  split_events(trace)[0][1]['s'] == cat_nl(lines),
+                                                                  'internal'),
+               # ... which is what callers see as the ghost event of this call
+               'split-event': (lambda lines, trace: trace.append(('split', {'s': cat_nl(lines)})), 'effect'),
+           },
+           raises_only=())
+
+_TS_FRAME = {'token_parser._token_stream._start_pos': Nat,
+             'token_parser._token_stream._head_token': Opt(TOKEN),
+             'token_parser._token_stream._head_syntax_error_description': Opt(Str),
+             'token_parser._token_stream._lexer': Any_,
+             'token_parser._token_stream._source_io.pos': Nat}
+
+
+def _hd_pos(token_parser):
+    return token_parser._token_stream._start_pos
+
+
+def _hd_source(token_parser):
+    return token_parser._token_stream._source
+
+
+M.contract(P_RS + ':HereDocParser._parse_contents', params=dict(marker=Str, token_parser=TP),
+           requires=lambda marker: '\n' not in marker,
+           old=lambda token_parser: (_hd_pos(token_parser), _hd_source(token_parser)),
+           modifies=_TS_FRAME,
+           raises={parse_rich_string.HereDocumentContentsParsingException: {
+               # unterminated: everything was read
+               'ensures': lambda token_parser, old: _hd_pos(token_parser) == len(old[1])}},
+           ensures={
+               'source-unchanged': lambda token_parser, old: _hd_source(token_parser) == old[1],
+               'stops-at-the-end-of-a-marker-line': lambda marker, token_parser, old:
+               marker_line_at(old[1], old[0], _hd_pos(token_parser) - len(marker), marker),
+               'contents-is-the-text-before-the-marker-line': lambda marker, token_parser, old, trace:
+               len(split_events(trace)) == 1
+               and split_events(trace)[0][1]['s'] == old[1][old[0]:_hd_pos(token_parser) - len(marker)],
+           },
+           raises_only=())
+M.loop(P_RS + ':HereDocParser._parse_contents', 0,
+       invariant=lambda token_parser, here_doc, old:
+       _hd_source(token_parser) == old[1]
+       and old[0] <= _hd_pos(token_parser) and _hd_pos(token_parser) <= len(old[1])
+       and (cat_nl(here_doc) == old[1][old[0]:_hd_pos(token_parser)]
+            or (_hd_pos(token_parser) == len(old[1])
+                and cat_nl(here_doc) == old[1][old[0]:_hd_pos(token_parser)] + '\n'))
+       and join_lemma(here_doc)
+       and (cat_nl(here_doc) == '' or cat_nl(here_doc).endswith('\n')),
+       modifies=dict(_TS_FRAME, here_doc=LINES, line='local'))
